@@ -2,6 +2,7 @@ package props
 
 import (
 	"bytes"
+	"compress/flate"
 	"encoding/base64"
 	"encoding/binary"
 	"fmt"
@@ -21,7 +22,7 @@ import (
 
 func init() {
 	register(&Prop{ID: "C12", Run: runC12, MinNontrivial: 200, Workers: 8,
-		Rule:        "cases = (configured limit L in {unset=5 MiB, 1, 100, 2 KiB, 64 KiB, 1 MiB}) x (document inflating to exactly L-1, L, L+1, 2L, 10L bytes: a valid message padded by a trailing comment, or minimal well-formed XML when L is too small) x DEFLATE level {0,1,6,9,Huffman-only} x the six inbound entry points (the two unverified decoders always have 5 MiB), plus bombs inflating to max(1000 L, 256 MiB) (1 GiB at the default limit in the thorough tier); oracle: size <= limit => same outcome class and same returned data as the uncompressed twin and never an 'exceeds maximum size' error; size > limit => error; on over-limit inputs the call's runtime.MemStats.TotalAlloc delta <= 8 L + 4 |input| + 2 MiB (quiescent single-goroutine worker) and, for bombs, the worker's VmHWM growth <= 8 L + 4 |input| + 64 MiB; the inflate hook's (length, limit) pairs are reported; non-trivial = DEFLATE stream decoded by the library; distinct by parameter tuple; bombs also in zlib and gzip framing; trailing comments filled with non-UTF-8 bytes; class max-ratio: one-run messages inflating to limit-1 / limit bytes (about 1007:1); class ratio-boundary (inflated length = 2..256 x compressed length); class nested-compression (compressed plaintext inside the ciphertext); white-space-only padding after the root; in every second worker process providers with limits of 64 MiB / 1 TiB / 7 bytes / MaxInt64 have handled messages first",
+		Rule:        "cases = (configured limit L in {unset=5 MiB, 1, 100, 2 KiB, 64 KiB, 1 MiB}) x (document inflating to exactly L-1, L, L+1, 2L, 10L bytes: a valid message padded by a trailing comment, or minimal well-formed XML when L is too small) x DEFLATE level {0,1,6,9,Huffman-only} x the six inbound entry points (the two unverified decoders always have 5 MiB), plus bombs inflating to max(1000 L, 256 MiB) (1 GiB at the default limit in the thorough tier); oracle: size <= limit => same outcome class and same returned data as the uncompressed twin and never an 'exceeds maximum size' error; size > limit => error; on over-limit inputs the call's runtime.MemStats.TotalAlloc delta <= 8 L + 4 |input| + 2 MiB (quiescent single-goroutine worker) and, for bombs, the worker's VmHWM growth <= 8 L + 4 |input| + 64 MiB; the inflate hook's (length, limit) pairs are reported; non-trivial = DEFLATE stream decoded by the library; distinct by parameter tuple; bombs also in zlib and gzip framing; trailing comments filled with non-UTF-8 bytes; class max-ratio: one-run messages inflating to limit-1 / limit bytes (about 1007:1); class ratio-boundary (inflated length = 2..256 x compressed length); class nested-compression (compressed plaintext inside the ciphertext); white-space-only padding after the root; in every second worker process providers with limits of 64 MiB / 1 TiB / 7 bytes / MaxInt64 have handled messages first; class bloated-or-refused-twin: small messages behind runs of empty stored blocks or flushed after every byte (stream longer than the limit, expansion within it), and documents refused as received for a repeated attribute",
 		Assumptions: []string{"allocation bound has slack by design (measured 5.1 L + 0.8 MiB on the unchanged tree); within the limit the cost of parsing an accepted document is not asserted", "outcome classes are coarse: accepted / typed error key / signature stage / decode stage"}})
 }
 
@@ -321,6 +322,102 @@ func runC12(c *mon.Ctx) {
 					if ei == 0 && lvl == 6 {
 						cs.Sample(map[string]any{"class": gc, "twin": tc, "alloc_bytes": alloc, "inflate_hook": inflateEvents})
 					}
+				}
+			}
+		}
+	}
+
+	// ---- streams longer than what they inflate to: a message within the limit behind a run of empty stored blocks
+	// (what a sender that flushes after every write produces), so that the compressed form exceeds the limit while the
+	// expansion does not; and documents that are refused as received (an attribute written twice): the compressed
+	// presentation is treated the same ----
+	{
+		bk := 0
+		for _, L := range []int64{0, 100, 2048, 64 << 10} {
+			for ei, ep := range eps {
+				for _, variant := range []string{"empty-stored-blocks", "flush-per-byte", "repeated-attribute"} {
+					bk++
+					cs := c.Begin("bloated-or-refused-twin", bk)
+					if cs == nil {
+						continue
+					}
+					eff := L
+					if eff == 0 || ep.fixed {
+						eff = c12Default
+					}
+					if ep.fixed && L != 0 {
+						cs.Outcome("skipped-duplicate")
+						continue
+					}
+					if eff == c12Default && variant == "flush-per-byte" {
+						cs.Outcome("skipped-too-slow")
+						continue
+					}
+					n := eff
+					if n > 4096 {
+						n = 4096 // a small message: the stream's length comes from the empty blocks
+					}
+					if variant == "repeated-attribute" && n > 128 {
+						n -= 64 // room for the attributes added below
+					}
+					doc, signed, what := pad(ep.kind, n, "p")
+					if variant == "repeated-attribute" && int64(len(doc))+64 > eff {
+						cs.Outcome("skipped-no-room")
+						continue
+					}
+					if variant == "repeated-attribute" {
+						// not well-formed: refused as received, so refused compressed
+						if i := strings.Index(doc, " ID=\""); i >= 0 {
+							doc = doc[:i] + ` ID="_first"` + doc[i:]
+						}
+						if i := strings.Index(doc, " Version=\""); i >= 0 && bk%2 == 0 {
+							doc = doc[:i] + ` x:Version="1.1" xmlns:x="urn:x"` + doc[i:] + ""
+						}
+					}
+					var comp []byte
+					switch variant {
+					case "flush-per-byte":
+						var buf bytes.Buffer
+						fw, _ := flate.NewWriter(&buf, 6)
+						for i := 0; i < len(doc); i++ {
+							fw.Write([]byte{doc[i]})
+							fw.Flush()
+						}
+						fw.Close()
+						comp = buf.Bytes()
+					case "empty-stored-blocks":
+						blocks := int((eff+eff/4+8192)/5) + 1
+						comp = append(bytes.Repeat([]byte{0x00, 0x00, 0x00, 0xff, 0xff}, blocks), sim.Deflate([]byte(doc), 6)...)
+					default:
+						comp = sim.Deflate([]byte(doc), 6)
+					}
+					in := base64.StdEncoding.EncodeToString(comp)
+					raw := base64.StdEncoding.EncodeToString([]byte(doc))
+					cs.Desc("L=%d (effective %d) %s: message of %d bytes (%s), stream of %d bytes, entry=%s", L, eff, variant, len(doc), what, len(comp), ep.name)
+					cs.Input([]byte(trunc(doc, 1024)))
+					var got, twin string
+					var gerr, terr error
+					pv, stack := mon.Guard(func() {
+						got, gerr = ep.call(mkSP(signed, L), in)
+						twin, terr = ep.call(mkSP(signed, L), raw)
+					})
+					if pv != nil {
+						cs.Violation("panic", "panic: %v\n%s", pv, trunc(stack, 800))
+						continue
+					}
+					cs.Nontrivial(cs.Description())
+					gc, tc := c12Class(gerr), c12Class(terr)
+					switch {
+					case gc == "over-limit":
+						cs.Violation("within-limit-rejected:"+variant, "a message inflating to %d <= limit %d (stream of %d bytes) rejected as over the limit: %v", len(doc), eff, len(comp), gerr)
+					case what != "tiny-garbage" && gc != tc:
+						cs.Violation("not-transparent:"+variant, "compressed outcome %q (%v) differs from the uncompressed twin's %q (%v)", gc, gerr, tc, terr)
+					case gerr == nil && got != twin:
+						cs.Violation("not-transparent-data", "compressed and uncompressed presentation return different data")
+					default:
+						cs.Outcome(variant + ":" + gc)
+					}
+					_ = ei
 				}
 			}
 		}
